@@ -1,5 +1,15 @@
 # sourced by every command in /verif
 export PATH=/root/go/pkg/mod/golang.org/toolchain@v0.0.1-go1.23.8.linux-amd64/bin:$PATH
-export GOTOOLCHAIN=local GOFLAGS=-mod=mod GOPROXY=off GONOSUMDB=* GONOSUMCHECK=1 GOFLAGS=-mod=mod
+export GOTOOLCHAIN=local GOFLAGS=-mod=mod GOPROXY=off
 export VERIF_ROOT=/verif
 export VERIF_SCRATCH=${VERIF_SCRATCH:-/var/tmp}
+# The tree under test. Always /repo for registered checks; mutation experiments point it at a
+# patched scratch copy (tools/with_patch.sh). Builds inside /verif then use an alternate
+# go.mod whose replace directive points at that copy ($VERIF_MODFLAG).
+export VERIF_REPO=${VERIF_REPO:-/repo}
+export VERIF_MODFLAG=""
+if [ "$VERIF_REPO" != /repo ]; then
+  sed "s#=> /repo\$#=> $VERIF_REPO#" /verif/go.mod > $VERIF_REPO/.verif-alt.mod
+  cp /verif/go.sum $VERIF_REPO/.verif-alt.sum
+  export VERIF_MODFLAG="-modfile=$VERIF_REPO/.verif-alt.mod"
+fi
